@@ -418,7 +418,9 @@ class C15(Family):
                      "CtrlVerif.Props.C15GenMinreal",
                      # the same test instantiated over the reals (abs = sqrt(re^2 + im^2)) = closeQI, the
                      # Gaussian-rational test the driver runs (negative tolerances included)
-                     "CtrlVerif.Props.C15GenMinrealC"]
+                     "CtrlVerif.Props.C15GenMinrealC",
+                     # semantic theorems transported to the generated body (keeps num/den as a rational function)
+                     "CtrlVerif.Props.C15GenMinrealSem"]
 
     def pre_build(self):
         import os
